@@ -46,13 +46,14 @@ unsigned nondet_unsigned(void);
 #define ST_MAXN ((size_t)1 << 40)
 
 /* ---- operator new[] / delete[] ---------------------------------------------- */
+void *ST_NEWEST;      /* the block most recently returned by st_new_* (lets the copy stubs address it without aliasing in-object arrays) */
 #define ST_NEW(T, name) \
 T *name(size_t n) { \
     __CPROVER_assert(n <= ST_MAXN, "st_new.precondition: allocation request is not oversized"); \
     if (ST_FAULT && nondet_bool()) { ST_EXC = EXC_std_bad_alloc; return (T *)0; } \
     T *p = (T *)malloc(n * sizeof(T)); \
     __CPROVER_assume(p != (T *)0); \
-    ST_LIVE++; \
+    ST_LIVE++; ST_NEWEST = p; \
     return p; \
 }
 ST_NEW(char, st_new_char)
@@ -69,12 +70,45 @@ void st_delete(void *p) {
  * The copy-like stubs havoc the destination range and re-establish the element
  * equalities at the ghost positions GI0 and GI1 only; that is all a caller can
  * learn, and it is what the real functions guarantee for every position.          */
+
+/* ---- havoc of a destination range d[0..n) for the copy-like stubs.
+ * CBMC lowers __CPROVER_havoc_slice on a pointer that MAY point into a fixed-size in-object array of 256 bytes
+ * (string_stream::m_stack) into ~2.5 million variables (one symbolic index into an unbounded nondet array per byte, then
+ * Ackermann constraints).  A harness may therefore register that array (TR_SMALL / TR_SMALL2) and the heap blocks it created
+ * (TR_BIG*); the helper then addresses each candidate object through a pointer whose points-to set is that object only:
+ * byte-precise havoc with constant indices for the in-object array, havoc_slice for heap blocks.  Same semantics as
+ * havoc_slice(d, n); an unregistered destination is reported as a harness error (undecided), never silently skipped.        */
+char *TR_SMALL, *TR_SMALL2; size_t TR_SMALL_N; void *TR_BIG1, *TR_BIG2, *TR_BIG3;
+#define HV_B(base, i) if ((size_t)(i) < TR_SMALL_N && (size_t)(i) >= lo && (size_t)(i) < hi) (base)[i] = nd[i];
+#define HV_8(base, b) HV_B(base, (b)) HV_B(base, (b) + 1) HV_B(base, (b) + 2) HV_B(base, (b) + 3) HV_B(base, (b) + 4) HV_B(base, (b) + 5) HV_B(base, (b) + 6) HV_B(base, (b) + 7)
+#define HV_64(base, b) HV_8(base, (b)) HV_8(base, (b) + 8) HV_8(base, (b) + 16) HV_8(base, (b) + 24) HV_8(base, (b) + 32) HV_8(base, (b) + 40) HV_8(base, (b) + 48) HV_8(base, (b) + 56)
+#define HV_256(base) HV_64(base, 0) HV_64(base, 64) HV_64(base, 128) HV_64(base, 192)
+static void tr_havoc_small(char *base, char *d, size_t n)
+{
+    size_t lo = (size_t)__CPROVER_POINTER_OFFSET(d) - (size_t)__CPROVER_POINTER_OFFSET(base), hi = lo + n; char nd[256];
+    __CPROVER_assert(TR_SMALL_N <= 256 && lo <= TR_SMALL_N && n <= TR_SMALL_N - lo, "tr_copy/move/assign.precondition: the write stays inside the in-object array");
+    HV_256(base)
+}
+static void tr_havoc_char(char *d, size_t n)
+{
+    if (TR_SMALL == (char *)0 && TR_BIG1 == (void *)0) { __CPROVER_havoc_slice(d, n); return; }     /* nothing registered: plain havoc */
+    if (TR_SMALL != (char *)0 && __CPROVER_same_object(d, TR_SMALL)) tr_havoc_small(TR_SMALL, d, n);
+    else if (TR_SMALL2 != (char *)0 && __CPROVER_same_object(d, TR_SMALL2)) tr_havoc_small(TR_SMALL2, d, n);
+    else if (ST_NEWEST != (void *)0 && __CPROVER_same_object(d, ST_NEWEST)) __CPROVER_havoc_slice((char *)ST_NEWEST + __CPROVER_POINTER_OFFSET(d), n);
+    else if (TR_BIG1 != (void *)0 && __CPROVER_same_object(d, TR_BIG1)) __CPROVER_havoc_slice((char *)TR_BIG1 + __CPROVER_POINTER_OFFSET(d), n);
+    else if (TR_BIG2 != (void *)0 && __CPROVER_same_object(d, TR_BIG2)) __CPROVER_havoc_slice((char *)TR_BIG2 + __CPROVER_POINTER_OFFSET(d), n);
+    else if (TR_BIG3 != (void *)0 && __CPROVER_same_object(d, TR_BIG3)) __CPROVER_havoc_slice((char *)TR_BIG3 + __CPROVER_POINTER_OFFSET(d), n);
+    else { __CPROVER_assert(0, "HARNESS: destination object of a copy stub is not registered (TR_SMALL / TR_BIG*)"); __CPROVER_assume(0); }
+}
+#define tr_havoc_char16_t(d, n) __CPROVER_havoc_slice(d, (n) * sizeof(uint16_t))
+#define tr_havoc_char32_t(d, n) __CPROVER_havoc_slice(d, (n) * sizeof(uint32_t))
+#define tr_havoc_wchar_t(d, n) __CPROVER_havoc_slice(d, (n) * sizeof(int32_t))
 #define TR_STUBS(T, sfx) \
 T *tr_copy_##sfx(T *d, const T *s, size_t n) { \
     __CPROVER_assert(n == 0 || (__CPROVER_r_ok(s, n * sizeof(T)) && __CPROVER_w_ok(d, n * sizeof(T))), "tr_copy.precondition: source readable and destination writable for n elements"); \
     if (n != 0) { \
         T v0 = (GI0 < n) ? s[GI0] : (T)0, v1 = (GI1 < n) ? s[GI1] : (T)0, v2 = (GI2 < n) ? s[GI2] : (T)0; \
-        __CPROVER_havoc_slice(d, n * sizeof(T)); \
+        tr_havoc_##sfx(d, n); \
         __CPROVER_assume(GI0 < n ==> d[GI0] == v0); __CPROVER_assume(GI1 < n ==> d[GI1] == v1); __CPROVER_assume(GI2 < n ==> d[GI2] == v2); \
     } \
     return d; \
@@ -83,7 +117,7 @@ T *tr_move_##sfx(T *d, const T *s, size_t n) { \
     __CPROVER_assert(n == 0 || (__CPROVER_r_ok(s, n * sizeof(T)) && __CPROVER_w_ok(d, n * sizeof(T))), "tr_move.precondition: source readable and destination writable for n elements"); \
     if (n != 0) { \
         T v0 = (GI0 < n) ? s[GI0] : (T)0, v1 = (GI1 < n) ? s[GI1] : (T)0, v2 = (GI2 < n) ? s[GI2] : (T)0; \
-        __CPROVER_havoc_slice(d, n * sizeof(T)); \
+        tr_havoc_##sfx(d, n); \
         __CPROVER_assume(GI0 < n ==> d[GI0] == v0); __CPROVER_assume(GI1 < n ==> d[GI1] == v1); __CPROVER_assume(GI2 < n ==> d[GI2] == v2); \
     } \
     return d; \
@@ -91,7 +125,7 @@ T *tr_move_##sfx(T *d, const T *s, size_t n) { \
 T *tr_assign_##sfx(T *d, size_t n, T c) { \
     __CPROVER_assert(n == 0 || __CPROVER_w_ok(d, n * sizeof(T)), "tr_assign.precondition: destination writable for n elements"); \
     if (n != 0) { \
-        __CPROVER_havoc_slice(d, n * sizeof(T)); \
+        tr_havoc_##sfx(d, n); \
         __CPROVER_assume(GI0 < n ==> d[GI0] == c); __CPROVER_assume(GI1 < n ==> d[GI1] == c); __CPROVER_assume(GI2 < n ==> d[GI2] == c); \
         __CPROVER_assume(d[0] == c); __CPROVER_assume(d[n - 1] == c); \
     } \
